@@ -13,4 +13,5 @@ pub mod heap;
 pub mod histsim;
 pub mod json;
 pub mod rng;
+pub mod sessim;
 pub mod util;
